@@ -1152,3 +1152,25 @@ pub fn gen_geo() -> Vec<String> {
     }
     out
 }
+
+/// DEEP: bracket nesting of a few hundred levels (the property texts speak of "hundreds, not
+/// thousands"), around the 8-bit boundary, both inside a loop that is skipped (the matching
+/// bracket has to be found by counting) and in loops that are entered.  Deterministic, 20 programs.
+pub fn gen_deep() -> Vec<String> {
+    let mut out = Vec::new();
+    for d in [64usize, 127, 128, 255, 256, 257, 300] {
+        // skipped: the outer loop is not entered, the text inside must be stepped over
+        out.push(format!("[{}+.{}]++.", "[".repeat(d), "]".repeat(d)));
+        // skipped after an input-dependent test
+        out.push(format!(",[-]{}>+.<{}+++.", "[".repeat(d), "]".repeat(d)));
+    }
+    for d in [64usize, 128, 256, 300] {
+        // entered: every level runs once
+        out.push(format!("+{}-{}++.", "[".repeat(d), "]".repeat(d)));
+    }
+    for d in [100usize, 260] {
+        // entered with an input byte, body visible at the innermost level
+        out.push(format!(",{}.[-]{}+.", "[".repeat(d), "]".repeat(d)));
+    }
+    out
+}
